@@ -54,7 +54,7 @@ fn squeeze(v: &[String]) -> Vec<String> {
 impl Prop for C14 {
     fn cases(&self, tier: Tier) -> u64 {
         match tier {
-            Tier::Quick => 100_000,
+            Tier::Quick => 250_000,
             Tier::Thorough => 1_500_000,
         }
     }
